@@ -343,3 +343,33 @@ package pegnet
 //@   trusted
 //@   pure
 //@   ensures !isRejectErr(result)
+//@
+//@ // ---- block transaction discipline (C02) -----------------------------------------------------------
+//@ //   Csynced: the sync height recorded in the COMMITTED database (LmetaSynced is the view through the open sql.Tx)
+//@ ghost var Csynced int
+//@ spec func ledgerInv(bal map[factom.FAAddress]map[int]int, exec map[factom.Bytes32]int, rel set[factom.Bytes32], hist set[factom.Bytes32], hold map[factom.Bytes32]int) bool =
+//@     balNonNeg(bal) && statusInv(exec, rel, hist) && holdInv(hold, hist)
+//@
+//@ // SQLite/database-sql transaction semantics (trusted): BEGIN gives a view equal to the committed state, which satisfies the
+//@ // ledger invariants because every COMMIT is only issued on a state that satisfies them (requires of Commit)
+//@ extern func (*database/sql.DB).BeginTx
+//@   modifies LmetaSynced, Lbal, Lsupply, Lrel, Lexec, LtoAmt, Lrefund, Lhist, Lhold, Lrated, Lrate, LbankPresent, LbankAmt, LbankUsed, LbankReq, LsyncPresent, LsyncVer
+//@   ensures result1 == nil ==> result0 != nil && LmetaSynced == Csynced && ledgerInv(Lbal, Lexec, Lrel, Lhist, Lhold)
+//@   ensures result1 == nil ==> (forall h int :: heldUnexecuted(Lhold, Lrel, Lrated, h) || h != Csynced + 1)
+//@
+//@ extern func (*database/sql.Tx).Commit
+//@   requires @committed_state_consistent ledgerInv(Lbal, Lexec, Lrel, Lhist, Lhold)
+//@   requires @one_height_per_commit LmetaSynced == Csynced + 1 && LsyncPresent[LmetaSynced] && LsyncVer[LmetaSynced] == PegnetdSyncVersion
+//@   modifies Csynced
+//@   ensures result == nil ==> Csynced == LmetaSynced
+//@   ensures result != nil ==> Csynced == old(Csynced)
+//@
+//@ extern func (*database/sql.Tx).Rollback
+//@   modifies LmetaSynced, Lbal, Lsupply, Lrel, Lexec, LtoAmt, Lrefund, Lhist, Lhold, Lrated, Lrate, LbankPresent, LbankAmt, LbankUsed, LbankReq, LsyncPresent, LsyncVer
+//@   ensures LmetaSynced == Csynced
+//@
+//@ func (*Pegnet).InsertSynced
+//@   trusted
+//@   modifies LmetaSynced, LmetaPresent, LsyncPresent, LsyncVer
+//@   ensures !isRejectErr(result)
+//@   ensures result == nil ==> LmetaSynced == bs.Synced && LmetaPresent && !old(LsyncPresent)[bs.Synced] && LsyncPresent[bs.Synced] && LsyncVer[bs.Synced] == PegnetdSyncVersion
